@@ -68,6 +68,7 @@ class RevolveCheckpointSchedule(CheckpointSchedule):
             raise RuntimeError("Invalid forward steps number.")
 
         snapshots = set()
+        last_reads = _last_reads(self._schedule)
         w_storage = None
         write_ics = False
         adj_deps = False
@@ -85,7 +86,7 @@ class RevolveCheckpointSchedule(CheckpointSchedule):
                         raise InvalidActionIndex
                     write_ics = True
                     adj_deps = False
-                    snapshots.add(w_n0)
+                    snapshots.add((w_storage, w_n0))
                 elif (w_cp_action == "Write_Forward"
                       or w_cp_action == "Write_Forward_memory"):
                     if w_n0 != n_1:
@@ -112,8 +113,9 @@ class RevolveCheckpointSchedule(CheckpointSchedule):
                   or cp_action == "Read_memory"
                   or cp_action == "Read_disk"):
                 self._n = n_0
-                if n_0 == self._max_n - self._r - 1:
-                    snapshots.remove(n_0)
+                if i in last_reads:
+                    # The checkpoint is not read again, delete it
+                    snapshots.remove((storage, n_0))
                     yield Move(n_0, storage, StorageType.WORK)
                 else:
                     yield Copy(n_0, storage, StorageType.WORK)
@@ -336,6 +338,34 @@ class Revolve(RevolveCheckpointSchedule):
     def __init__(self, max_n, snapshots_in_ram, uf=1, ub=1, wd=2, rd=2):
         schedule = list(revolve(max_n - 1, snapshots_in_ram, wd, rd, uf, ub))
         super().__init__(max_n, snapshots_in_ram, 0, schedule)
+
+
+def _last_reads(schedule):
+    """Find the read operations after which a checkpoint is no longer needed.
+
+    Parameters
+    ----------
+    schedule : list
+        A sequence of operations given by a revolver algorithm.
+
+    Returns
+    -------
+    set
+        The indices of the read operations which are the last read of the
+        checkpoint, i.e. the checkpoint is not read again before the end of
+        the schedule or before it is written anew.
+    """
+    reads = {}
+    last_reads = set()
+    for i, operation in enumerate(schedule):
+        cp_action, (n_0, _, storage) = _convert_action(operation)
+        if cp_action in ["Read", "Read_memory", "Read_disk"]:
+            reads[(storage, n_0)] = i
+        elif cp_action in ["Write", "Write_memory", "Write_disk"]:
+            if (storage, n_0) in reads:
+                last_reads.add(reads.pop((storage, n_0)))
+    last_reads.update(reads.values())
+    return last_reads
 
 
 def _convert_action(action):
